@@ -39,6 +39,8 @@ __CPROVER_ensures(IMPLIES(g_nwrites == __CPROVER_old(g_nwrites) + 1 && g_io_coun
 __CPROVER_ensures(IMPLIES(!(ncp->flags & NC_HCOLL) || ncp->vars.num_rec_vars == 0, g_coll_n == __CPROVER_old(g_coll_n))) /*@C08_no_collective_without_HCOLL*/
 __CPROVER_ensures(IMPLIES((ncp->flags & NC_HCOLL) && ncp->nprocs > 1 && ncp->vars.num_rec_vars > 0 && ncp->rank > 0, g_coll_n == __CPROVER_old(g_coll_n) + 1)) /*@C08_nonroot_always_participates*/
 __CPROVER_ensures(g_coll_n >= __CPROVER_old(g_coll_n) && g_coll_n <= __CPROVER_old(g_coll_n) + 1) /*@at_most_one_collective*/
+__CPROVER_ensures(IMPLIES(__CPROVER_old(g_io_n) > 0, g_io_off[0] == __CPROVER_old(g_io_off[0]) && g_io_count[0] == __CPROVER_old(g_io_count[0]) && g_io_kind[0] == __CPROVER_old(g_io_kind[0])) &&
+                  IMPLIES(__CPROVER_old(g_io_n) > 1, g_io_off[1] == __CPROVER_old(g_io_off[1]) && g_io_count[1] == __CPROVER_old(g_io_count[1]) && g_io_kind[1] == __CPROVER_old(g_io_kind[1]))) /*@io_trace_append_only*/
 /* the trace is append-only: earlier entries are kept (first three stated explicitly) */
 __CPROVER_ensures(IMPLIES(__CPROVER_old(g_coll_n) > 0, g_coll_kind[0] == __CPROVER_old(g_coll_kind[0])) && IMPLIES(__CPROVER_old(g_coll_n) > 1, g_coll_kind[1] == __CPROVER_old(g_coll_kind[1])) &&
                   IMPLIES(__CPROVER_old(g_coll_n) > 2, g_coll_kind[2] == __CPROVER_old(g_coll_kind[2]))) /*@collective_trace_append_only*/
